@@ -142,9 +142,16 @@ class Campaign:
                 hashes.update(r.get("case_hashes") or [])
                 nt_hashes.update(r.get("nontrivial_hashes") or [])
             samples = []
+            seen_parts = set()
+            for r in results:  # one sample per part first, so that the evidence shows every kind of case
+                for smp in r.get("samples") or []:
+                    part = smp.get("part") if isinstance(smp, dict) else None
+                    if part not in seen_parts and len(samples) < 5:
+                        seen_parts.add(part)
+                        samples.append(smp)
             for r in results:
                 for smp in r.get("samples") or []:
-                    if len(samples) < 3:
+                    if len(samples) < 3 and smp not in samples:
                         samples.append(smp)
             n_eval, n_nt, n_dist = ncases, len(nt_hashes), len(hashes)
         else:
@@ -170,7 +177,10 @@ class Campaign:
         out_lines = []
         exit_code = 0
         for (p, k, what), vs in known.items():
-            out_lines.append(f"KNOWN-FINDING: property={p} {what} [{k}; seen {len(vs)}x, e.g. {vs[0][1]['text'][:160]}]")
+            out_lines.append(f"KNOWN-FINDING: property={p} {what} [{k}; seen {len(vs)}x in this run, e.g. {vs[0][1]['text'][:160]}]")
+        for f in findings:
+            if f.get("status") == "known" and f["property"] == prop and not any(k[1] == f["key"] for k in known):
+                out_lines.append(f"KNOWN-FINDING: property={prop} {f.get('what', '')} [{f['key']}; listed, not reached by this run's executions]")
         seen_keys = set()
         replays_dir = os.environ.get("VERIF_REPLAY_DIR") or os.path.join(VERIF, "replays")
         for i, v in own:
